@@ -10,14 +10,17 @@ NAME_POOLS = {
     "ascii": ["a", "b", "c", "d", "e", "f", "g", "h"],
     "tricky": ["", "a", "A", "ab", "b ", "é", "日本", "ß", "a,b", "10", "9", "x" * 12, "Ω", "ctl", "control"],
     "digits": ["1", "2", "10", "11", "9", "100", "01"],
+    "wide": [f"t{i}" for i in range(300)],
 }
 SAMPLE_POOLS = {
     "ascii": ["s0", "s1", "s2", "s3", "s4", "s5", "s6"],
     "tricky": ["", "s", "S", "é", "日本", "cell line", "10", "9", "ctl", "zz" * 6],
+    "wide": [f"s{i}" for i in range(300)],
 }
 PLATE_POOLS = {
     "ascii": ["p0", "p1", "p2", "p3", "p4", "p5", "p6", "p7", "p8", "p9", "p10", "p11"],
     "tricky": ["", "p", "P", "é", "日本", "plate 1", "10", "9", "2", "ctl", "unobserved_plate", "q" * 9],
+    "wide": [f"p{i}" for i in range(300)],
 }
 DOSES = [1.0, 2.0, 0.5, 10.0, 1e-3, 5e-324, 2.2250738585072014e-308, 1e300, 3.0000000000000004]
 CONTROL_DOSES = [0.0, -0.0, -1.0, -5e-324]
@@ -36,11 +39,20 @@ def gen_obs(rnd, special_rate=0.3, allow_zero=True):
 def gen_screen(rnd, *, arity=None, n_rows=None, n_plates=None, n_samples=None, n_names=None,
                n_doses=None, alphabet=None, control=None, observed_rate=None,
                control_rate=0.25, dup_rate=0.15, nonzero_obs=False, all_observed=False,
-               no_self_pairs=False):
+               no_self_pairs=False, big_rate=0.05):
     """A raw screen: dict(control, arity, rows=[[sample,[[name,dose]..],obs,plate,observed]..])"""
     alphabet = alphabet or rnd.choice(["ascii", "ascii", "tricky"])
     arity = arity or rnd.choice([1, 2, 2, 2, 3])
     n_rows = n_rows or rnd.randint(4, 40)
+    # a few runs are BIG: more rows than any plausible block size (32, 64, 128, 256) and more distinct samples,
+    # plates and (treatment, dose) pairs than fit a one-byte id, so blocking and narrow-integer shortcuts are crossed
+    big = rnd.random() < big_rate
+    if big:
+        n_rows = rnd.choice([70, 131, 263, 300])
+        alphabet = rnd.choice(["wide", "wide", alphabet])
+        n_plates = n_plates or rnd.choice([3, 33, 200])
+        n_samples = n_samples or rnd.choice([2, 34, 250])
+        n_names = n_names or rnd.choice([5, 40, 150])
     n_plates = n_plates or rnd.randint(1, min(8, n_rows))
     n_samples = n_samples or rnd.randint(1, 5)
     n_names = n_names or rnd.randint(2, 6)
@@ -49,6 +61,8 @@ def gen_screen(rnd, *, arity=None, n_rows=None, n_plates=None, n_samples=None, n
     samples = rnd.sample(SAMPLE_POOLS[alphabet], min(n_samples, len(SAMPLE_POOLS[alphabet])))
     plates = rnd.sample(PLATE_POOLS[alphabet], min(n_plates, len(PLATE_POOLS[alphabet])))
     doses = rnd.sample(DOSES if alphabet == "tricky" else DOSES[:5], n_doses)
+    if control is None and alphabet == "wide":
+        control = rnd.choice(["", "control", names[0]])
     if control is None:
         control = rnd.choice(["", "control", "ctl", rnd.choice(names)]) if alphabet == "tricky" else rnd.choice(["", "control", names[0]])
     if observed_rate is None:
